@@ -147,6 +147,7 @@ void Monitor::consume_ev_item()
         // everything accepted before this event has been popped and is finished
         while (!evs.empty() && ev_base < id) {
                 last_finished_ev_cmd = evs.front().cmd;
+                last_finished_ev_type = evs.front().type;
                 evs.pop_front();
                 ev_base++;
                 st.events_finished++;
@@ -160,6 +161,7 @@ void Monitor::consume_ev_item()
                 r.remaining--;
                 if (r.remaining == 0) {
                         last_finished_ev_cmd = r.cmd;
+                        last_finished_ev_type = r.type;
                         evs.pop_front();
                         ev_base++;
                         st.events_finished++;
@@ -580,6 +582,7 @@ void Monitor::on_service_end(int status)
                 // quiescent: every accepted event has been popped and is finished
                 while (!evs.empty()) {
                         last_finished_ev_cmd = evs.front().cmd;
+                        last_finished_ev_type = -2; // the event machine is idle: nothing is held any more
                         evs.pop_front();
                         ev_base++;
                         st.events_finished++;
@@ -772,6 +775,16 @@ void Monitor::on_buffered(int cmd, int type, int r)
                 st.buffered_must++;
                 if (r != ST_OK)
                         fail("C13", "buffered-query-busy-with-nothing-pending", "cat_is_unsolicited_event_buffered(cmd " + std::to_string(cmd) + ") returned BUSY although the parser is quiescent");
+        } else if (!any) {
+                // nothing accepted-and-unfinished matches this (command, type); the only other thing the library may
+                // still hold is the event that finished last
+                bool last_matches = last_finished_ev_cmd == cmd && last_finished_ev_type != -2 && (type == CT_NONE || last_finished_ev_type == type || last_finished_ev_type == -3);
+                if (!last_matches) {
+                        st.buffered_must++;
+                        if (r != ST_OK)
+                                fail("C13", "buffered-query-busy-for-other-event", "cat_is_unsolicited_event_buffered(cmd " + std::to_string(cmd) + ", type " + std::to_string(type) +
+                                                                                     ") returned BUSY although no event of that command and type is pending or in progress");
+                }
         }
 }
 
@@ -833,6 +846,7 @@ void Monitor::on_fresh()
         req_ok = req_err = false;
         ev_base = accepted = popped_certain = popped_possible = 0;
         last_finished_ev_cmd = -1;
+        last_finished_ev_type = -2;
         in_list = false;
         last_svc_ok = false;
         stimulus_since_ok = true;
